@@ -49,13 +49,19 @@ const (
 	c15Proposed
 	c15Get
 	c15GetC
+	c15Contains // containsDuplicate(batch)
+	c15Wake     // K Gets wait (all blocked), then X (Add/Proposed) runs, possibly racing with cancellation
 )
 
 type c15Op struct {
-	Kind     int      `json:"kind"` // 0 Add, 1 Proposed, 2 Get (blocks => cancelled), 3 Get with cancelled ctx
-	Cmds     []c15Cmd `json:"cmds,omitempty"`
-	NilBatch bool     `json:"nil_batch,omitempty"` // Proposed(nil)
-	NilCmd   bool     `json:"nil_cmd,omitempty"`   // Add(nil) / a nil entry (Cmds[i] is the zero command)
+	Kind        int      `json:"kind"` // 0 Add, 1 Proposed, 2 Get (blocks => cancelled), 3 Get with cancelled ctx
+	Cmds        []c15Cmd `json:"cmds,omitempty"`
+	NilBatch    bool     `json:"nil_batch,omitempty"`    // Proposed(nil)
+	NilCmd      bool     `json:"nil_cmd,omitempty"`      // Add(nil) / a nil entry (Cmds[i] is the zero command)
+	K           int      `json:"waiting_gets,omitempty"` // Wake: number of Gets that wait
+	Racing      bool     `json:"racing,omitempty"`       // Wake: the Gets' context is cancelled together with X
+	CancelFirst bool     `json:"cancel_first,omitempty"` // Wake, racing: cancel() is called before X (else right after)
+	X           *c15Op   `json:"x,omitempty"`            // Wake: the operation that runs while the Gets wait
 }
 
 const (
@@ -65,10 +71,30 @@ const (
 )
 
 type c15Res struct {
-	Kind  int      `json:"kind"` // 0 none, 1 blocked until cancelled, 2 batch
-	Batch []c15Cmd `json:"batch,omitempty"`
-	Err   string   `json:"err,omitempty"`
-	Panic string   `json:"panic,omitempty"`
+	Kind       int        `json:"kind"` // 0 none, 1 blocked until cancelled, 2 batch
+	Batch      []c15Cmd   `json:"batch,omitempty"`
+	Err        string     `json:"err,omitempty"`
+	Panic      string     `json:"panic,omitempty"`
+	Batches    [][]c15Cmd `json:"batches,omitempty"`    // Wake: what the waiting Gets returned
+	Contains   bool       `json:"contains,omitempty"`   // containsDuplicate
+	Degenerate bool       `json:"degenerate,omitempty"` // Wake whose first Get did not block: ran as a plain Get
+	raw        []*Batch   // the returned batch objects (aliasing probes)
+}
+
+// c15Junk is appended to every batch a Get returns: if the batch shared its backing array with the
+// cache, the junk (a fresh command nobody added) would show up in the cache.
+func c15Junk() *Command {
+	return &Command{ClientID: 77777, SequenceNumber: 1 << 40, Data: []byte("junk")}
+}
+
+func c15TakeBatch(res *c15Res, b *Batch) []c15Cmd {
+	var cmds []c15Cmd
+	for _, c := range b.GetCommands() {
+		cmds = append(cmds, c15FromCommand(c))
+	}
+	b.Commands = append(b.Commands, c15Junk())
+	res.raw = append(res.raw, b)
+	return cmds
 }
 
 func c15ToCommand(c c15Cmd) *Command {
@@ -202,8 +228,81 @@ func c15Exec(cc *CommandCache, op c15Op) (res c15Res) {
 			res.Err = "nil batch and nil error"
 			return res
 		}
-		for _, c := range o.b.GetCommands() {
-			res.Batch = append(res.Batch, c15FromCommand(c))
+		res.Batch = c15TakeBatch(&res, o.b)
+	case c15Contains:
+		b := &Batch{}
+		for _, c := range op.Cmds {
+			if op.NilCmd && c == (c15Cmd{}) {
+				b.Commands = append(b.Commands, nil)
+			} else {
+				b.Commands = append(b.Commands, c15ToCommand(c))
+			}
+		}
+		res.Contains = cc.containsDuplicate(b)
+	case c15Wake:
+		type out struct {
+			b    *Batch
+			err  error
+			pan  string
+			done bool
+		}
+		ctx, cancel := context.WithCancel(context.Background())
+		defer cancel()
+		outs := make([]*out, 0, op.K)
+		for i := 0; i < op.K; i++ {
+			x := &out{}
+			outs = append(outs, x)
+			go func() {
+				defer func() {
+					if r := recover(); r != nil {
+						x.pan = fmt.Sprint(r)
+					}
+					x.done = true
+				}()
+				x.b, x.err = cc.Get(ctx)
+			}()
+			synctest.Wait()
+			if x.done {
+				if x.pan != "" {
+					res.Panic = x.pan
+					return res
+				}
+				if i == 0 && x.err == nil && x.b != nil {
+					// enough fresh commands were already there: this is just a Get
+					res.Degenerate, res.Kind = true, c15Batch
+					res.Batch = c15TakeBatch(&res, x.b)
+					return res
+				}
+				res.Err = fmt.Sprintf("waiting Get %d returned without any change: batch=%v err=%v", i, x.b != nil, x.err)
+				return res
+			}
+		}
+		if op.Racing && op.CancelFirst {
+			cancel()
+		}
+		if sub := c15Exec(cc, *op.X); sub.Panic != "" {
+			res.Panic = sub.Panic
+			return res
+		}
+		if op.Racing && !op.CancelFirst {
+			cancel()
+		}
+		synctest.Wait()
+		if !op.Racing {
+			cancel() // whoever is still waiting now ends by cancellation
+			synctest.Wait()
+		}
+		for i, x := range outs {
+			switch {
+			case !x.done:
+				res.Err = fmt.Sprintf("waiting Get %d still blocked after cancel", i)
+			case x.pan != "":
+				res.Panic = x.pan
+			case x.err == nil && x.b != nil:
+				res.Batches = append(res.Batches, c15TakeBatch(&res, x.b))
+			case x.b != nil || !errors.Is(x.err, context.Canceled):
+				res.Err = fmt.Sprintf("waiting Get %d: batch=%v err=%v", i, x.b != nil, x.err)
+			}
 		}
 	}
 	return res
@@ -267,6 +366,40 @@ func c15Subseq(a, b []c15Cmd) bool {
 
 type c15Fail struct{ fp, what string }
 
+// remove takes the instances of b (left to right) out of the pending list.
+func (s *c15Spec) remove(b []c15Cmd) {
+	var rest []c15Cmd
+	j := 0
+	for _, c := range s.pend {
+		if j < len(b) && b[j] == c {
+			j++
+			continue
+		}
+		rest = append(rest, c)
+	}
+	s.pend = rest
+}
+
+// c15SameBatches compares two collections of batches as multisets.
+func c15SameBatches(a, b [][]c15Cmd) bool {
+	if len(a) != len(b) {
+		return false
+	}
+	m := map[string]int{}
+	for _, x := range a {
+		m[c15GCmds(x)]++
+	}
+	for _, x := range b {
+		m[c15GCmds(x)]--
+	}
+	for _, n := range m {
+		if n != 0 {
+			return false
+		}
+	}
+	return true
+}
+
 // apply advances the reference by one observed operation and returns the violated clauses.
 func (s *c15Spec) apply(op c15Op, res c15Res, after c15State) []c15Fail {
 	var fails []c15Fail
@@ -317,22 +450,79 @@ func (s *c15Spec) apply(op c15Op, res c15Res, after c15State) []c15Fail {
 			case !enough || !c15EqCmds(b, fp[:s.bs]):
 				bad("get:not-oldest-fresh", "Get returned %v, the oldest fresh pending commands are %v", b, fp)
 			}
-			// remove the handed-out instances (left to right) from the pending list
-			var rest []c15Cmd
-			j := 0
-			for _, c := range s.pend {
-				if j < len(b) && b[j] == c {
-					j++
-					continue
-				}
-				rest = append(rest, c)
-			}
-			s.pend = rest
+			s.remove(b)
 		default:
 			bad("get:bad-return", "Get returned neither a batch nor an error")
 		}
+	case c15Contains:
+		want := false
+		for _, c := range op.Cmds {
+			if !s.fresh(c) {
+				want = true
+			}
+		}
+		if res.Contains != want {
+			bad("contains:wrong-answer", "containsDuplicate(%v) = %v although marked=%v", op.Cmds, res.Contains, s.marked)
+		}
+	case c15Wake:
+		if res.Err != "" {
+			bad("get:bad-return", "waiting Get: %s", res.Err)
+		}
+		if fp := s.freshOf(s.pend); s.bs > 0 && uint32(len(fp)) >= s.bs {
+			bad("get:blocked-with-full-fresh-batch", "%d Gets blocked although %d fresh commands wait (batch size %d)", op.K, len(fp), s.bs)
+		}
+		// the operation that runs while they wait
+		switch op.X.Kind {
+		case c15Add:
+			if !op.X.NilCmd && s.fresh(op.X.Cmds[0]) {
+				s.pend = append(s.pend, op.X.Cmds[0])
+			}
+		case c15Proposed:
+			if !op.X.NilBatch {
+				for _, c := range op.X.Cmds {
+					if c.S > s.marked[c.C] {
+						s.marked[c.C] = c.S
+					}
+				}
+			}
+		}
+		// what the waiting Gets must return: the oldest fresh batches, one per Get, while they last
+		fp := s.freshOf(s.pend)
+		var exp [][]c15Cmd
+		for i := 0; i < op.K && s.bs > 0 && uint32(len(fp)) >= s.bs; i++ {
+			exp = append(exp, fp[:s.bs])
+			fp = fp[s.bs:]
+		}
+		obs := res.Batches
+		short := false
+		for _, b := range obs {
+			if uint32(len(b)) != s.bs {
+				short = true
+			}
+		}
+		switch {
+		case short:
+			bad("get:batch-not-full", "waiting Gets returned %v, batch size %d", obs, s.bs)
+		case len(obs) > len(exp) || !c15SameBatches(obs, exp[:len(obs)]):
+			bad("wake:wrong-batches", "waiting Gets returned %v after %s, the oldest fresh batches are %v (marked=%v)", obs, c15OpString(*op.X), exp, s.marked)
+		case len(obs) < len(exp) && !op.Racing:
+			bad("wake:waiting-get-not-woken", "%d Gets waited, %s made %d fresh batches available, only %d returned", op.K, c15OpString(*op.X), len(exp), len(obs))
+		}
+		if len(obs) <= len(exp) && c15SameBatches(obs, exp[:len(obs)]) {
+			for _, b := range exp[:len(obs)] {
+				s.remove(b)
+			}
+		} else {
+			for _, b := range obs {
+				s.remove(b)
+			}
+		}
 	}
 	s.pend = s.freshOf(s.pend)
+	// token_when_ready, observed at rest (no Get is in flight here): a full fresh batch => the token is there
+	if fc := s.freshOf(after.Cache); s.bs > 0 && uint32(len(fc)) >= s.bs && !after.Ready {
+		bad("token:missing-with-full-fresh-batch", "after %s: %d fresh commands cached, batch size %d, no wake-up pending: the next Get blocks", c15OpString(op), len(fc), s.bs)
+	}
 	// no fresh command is lost while it waits: the fresh part of the cache is exactly the pending list
 	fc := s.freshOf(after.Cache)
 	if !c15EqCmds(fc, s.pend) {
@@ -371,8 +561,19 @@ func c15GState(s c15State) string {
 	}
 	return fmt.Sprintf("(S_ %d [%s] %s %s)", s.BS, strings.Join(ss, ";"), c15GCmds(s.Cache), gBool(s.Ready))
 }
-func c15GOp(op c15Op) string {
+func c15GBatches(l [][]c15Cmd) string {
+	ss := make([]string, len(l))
+	for i, b := range l {
+		ss[i] = c15GCmds(b)
+	}
+	return "[" + strings.Join(ss, ";") + "]"
+}
+func c15GOp(op c15Op, res c15Res) string {
 	switch op.Kind {
+	case c15Contains:
+		return fmt.Sprintf("(CContains %s %s)", c15GCmds(op.Cmds), gBool(res.Contains))
+	case c15Wake:
+		return fmt.Sprintf("(W_ %d%%nat %s %s %s)", op.K, gBool(op.Racing), c15GOp(*op.X, c15Res{}), c15GBatches(res.Batches))
 	case c15Add:
 		if op.NilCmd {
 			return "(CAdd (0,0,0))" // nil command: GetClientID() = GetSequenceNumber() = 0
@@ -399,6 +600,16 @@ func c15GRes(r c15Res) string {
 }
 func c15OpString(op c15Op) string {
 	switch op.Kind {
+	case c15Contains:
+		return fmt.Sprintf("containsDuplicate(%v)", op.Cmds)
+	case c15Wake:
+		how := "then cancel at rest"
+		if op.Racing && op.CancelFirst {
+			how = "cancel just before it"
+		} else if op.Racing {
+			how = "cancel right after it"
+		}
+		return fmt.Sprintf("%d waiting Gets + %s (%s)", op.K, c15OpString(*op.X), how)
 	case c15Add:
 		if op.NilCmd {
 			return "Add(nil)"
@@ -478,7 +689,7 @@ func c15Alphabet(clients []uint32, seqs []uint64) []c15Op {
 
 // exhaustive: breadth first over the distinct (cache state, reference state) pairs reachable by
 // <= depth operations; every transition out of every such state is executed on a real cache.
-func (h *c15H) exhaustive(depth, kernelDepth, sampleMod int) {
+func (h *c15H) exhaustive(depth, kernelDepth, sampleMod, wakeDepth int) {
 	v := h.v
 	stream := v.Stream("step", "step_mismatches", 2500)
 	ops := c15Alphabet([]uint32{1, 2}, []uint64{1, 2, 3})
@@ -492,50 +703,92 @@ func (h *c15H) exhaustive(depth, kernelDepth, sampleMod int) {
 			v.CountN(fmt.Sprintf("distinct_states_expanded_bs%d", bs), len(frontier))
 			v.CountN(fmt.Sprintf("sequences_represented_bs%d", bs), seqCount)
 			var next []*c15Node
+			// try executes one transition out of node n on a freshly built real cache
+			try := func(n *c15Node, op c15Op, expand bool) {
+				cc := c15Build(n.st)
+				res := c15Exec(cc, op)
+				if res.Degenerate {
+					op = c15Op{Kind: c15Get}
+				}
+				after := c15Snap(cc)
+				spec := n.spec.clone()
+				fails := spec.apply(op, res, after)
+				if len(fails) > 0 {
+					h.report(fails, map[string]any{"batch_size": bs, "ops_before": n.path(), "state": n.st, "op": c15OpString(op), "result": res, "state_after": after})
+				} else {
+					v.Oracle(true, "", "", nil)
+				}
+				nontriv := len(n.st.Cache) > 0 && (op.Kind == c15Get || op.Kind == c15Wake || len(n.st.Seqs) > 0)
+				v.mu.Lock()
+				v.evals++
+				if nontriv {
+					v.nontriv++
+					if len(v.samples) < 3 && res.Kind == c15Batch && len(n.st.Cache) > int(bs) {
+						v.samples = append(v.samples, map[string]any{"state": n.st, "op": c15OpString(op), "result": res})
+					}
+				}
+				v.mu.Unlock()
+				kind := []string{"add", "proposed", "get", "getc", "contains", "wake"}[op.Kind]
+				if op.Kind == c15Wake {
+					kind = fmt.Sprintf("wake%d", op.K)
+					if op.Racing {
+						kind += "_racing"
+					}
+					kind += fmt.Sprintf("_%dbatches", len(res.Batches))
+				} else {
+					kind += "_" + []string{"none", "blocked", "batch"}[res.Kind]
+				}
+				v.Count("step_" + kind)
+				key := c15StateKey(n.st) + c15GOp(op, res)
+				emit := d < kernelDepth
+				if !emit {
+					hsh := uint32(2166136261)
+					for i := 0; i < len(key); i++ {
+						hsh = (hsh ^ uint32(key[i])) * 16777619
+					}
+					emit = int(hsh>>8)%sampleMod == 0
+				}
+				if emit && res.Panic == "" {
+					v.Case(stream, fmt.Sprintf("(%s,%s,%s,%s)", c15GState(n.st), c15GOp(op, res), c15GRes(res), c15GState(after)),
+						map[string]any{"batch_size": bs, "ops_before": n.path(), "op": c15OpString(op), "result": res, "state_after": after})
+					v.Count("step_kernel_cases")
+				}
+				if !expand || d == depth-1 {
+					return // states at the last level are not expanded
+				}
+				ck := c15Key(c15StateKey(after) + "|" + c15GCmds(spec.pend) + fmt.Sprint(spec.marked))
+				if !visited[ck] {
+					visited[ck] = true
+					next = append(next, &c15Node{st: after, spec: spec, parent: n, via: op, depth: d + 1})
+				}
+			}
 			for _, n := range frontier {
 				for _, op := range ops {
-					cc := c15Build(n.st)
-					res := c15Exec(cc, op)
-					after := c15Snap(cc)
-					spec := n.spec.clone()
-					fails := spec.apply(op, res, after)
-					if len(fails) > 0 {
-						h.report(fails, map[string]any{"batch_size": bs, "ops_before": n.path(), "state": n.st, "op": c15OpString(op), "result": res, "state_after": after})
-					} else {
-						v.Oracle(true, "", "", nil)
+					try(n, op, true)
+				}
+				// Transitions that lead to no new states (their successors are those of Add / Get) but
+				// exercise other code paths: an already-cancelled context while the token is there
+				// (both branches of the select: several tries), and Gets that are ALREADY WAITING
+				// when an Add arrives, with and without a cancellation racing with the Add.
+				if n.st.Ready {
+					for k := 0; k < 3; k++ {
+						try(n, c15Op{Kind: c15GetC}, false)
 					}
-					nontriv := len(n.st.Cache) > 0 && (op.Kind == c15Get || len(n.st.Seqs) > 0)
-					v.mu.Lock()
-					v.evals++
-					if nontriv {
-						v.nontriv++
-						if len(v.samples) < 3 && res.Kind == c15Batch && len(n.st.Cache) > int(bs) {
-							v.samples = append(v.samples, map[string]any{"state": n.st, "op": c15OpString(op), "result": res})
-						}
+				}
+				if uint32(len(n.spec.freshOf(n.spec.pend))) >= bs {
+					continue // a Get would not wait here
+				}
+				for i := range ops {
+					x := ops[i]
+					if x.Kind != c15Add {
+						continue
 					}
-					v.mu.Unlock()
-					v.Count("step_" + []string{"add", "proposed", "get", "getc"}[op.Kind] + "_" + []string{"none", "blocked", "batch"}[res.Kind])
-					key := c15StateKey(n.st) + c15GOp(op)
-					emit := d < kernelDepth
-					if !emit {
-						hsh := uint32(2166136261)
-						for i := 0; i < len(key); i++ {
-							hsh = (hsh ^ uint32(key[i])) * 16777619
-						}
-						emit = int(hsh>>8)%sampleMod == 0
-					}
-					if emit && res.Panic == "" {
-						v.Case(stream, fmt.Sprintf("(%s,%s,%s,%s)", c15GState(n.st), c15GOp(op), c15GRes(res), c15GState(after)),
-							map[string]any{"batch_size": bs, "ops_before": n.path(), "op": c15OpString(op), "result": res, "state_after": after})
-						v.Count("step_kernel_cases")
-					}
-					if d == depth-1 {
-						continue // states at the last level are not expanded
-					}
-					ck := c15Key(c15StateKey(after) + "|" + c15GCmds(spec.pend) + fmt.Sprint(spec.marked))
-					if !visited[ck] {
-						visited[ck] = true
-						next = append(next, &c15Node{st: after, spec: spec, parent: n, via: op, depth: d + 1})
+					try(n, c15Op{Kind: c15Wake, K: 1, X: &x}, false)
+					if d < wakeDepth {
+						try(n, c15Op{Kind: c15Wake, K: 2, X: &x}, false)
+						try(n, c15Op{Kind: c15Wake, K: 1, Racing: true, X: &x}, false)
+						try(n, c15Op{Kind: c15Wake, K: 1, Racing: true, CancelFirst: true, X: &x}, false)
+						try(n, c15Op{Kind: c15Wake, K: 2, Racing: true, CancelFirst: i%2 == 0, X: &x}, false)
 					}
 				}
 			}
@@ -554,8 +807,24 @@ func (h *c15H) runSeq(stream *verifStream, bs uint32, ops []c15Op, oracle bool, 
 	var results []c15Res
 	batches, blocked := 0, 0
 	ok := true
+	type held struct {
+		b    *Batch
+		cmds []c15Cmd
+		at   int
+	}
+	var holds []held
 	for i, op := range ops {
 		res := c15Exec(cc, op)
+		if res.Degenerate {
+			op = c15Op{Kind: c15Get}
+		}
+		for k, b := range res.raw {
+			cmds := res.Batch
+			if op.Kind == c15Wake {
+				cmds = res.Batches[k]
+			}
+			holds = append(holds, held{b, cmds, i})
+		}
 		after := c15Snap(cc)
 		names = append(names, c15OpString(op))
 		results = append(results, res)
@@ -574,7 +843,19 @@ func (h *c15H) runSeq(stream *verifStream, bs uint32, ops []c15Op, oracle bool, 
 			ok = false
 			break
 		}
-		terms = append(terms, fmt.Sprintf("(%s,%s,%s)", c15GOp(op), c15GRes(res), c15GState(after)))
+		terms = append(terms, fmt.Sprintf("(%s,%s,%s)", c15GOp(op, res), c15GRes(res), c15GState(after)))
+	}
+	// results are used after further operations: a batch handed out must not change any more
+	for _, hd := range holds {
+		now := hd.b.GetCommands()
+		same := len(now) == len(hd.cmds)+1
+		for k := 0; same && k < len(hd.cmds); k++ {
+			same = c15FromCommand(now[k]) == hd.cmds[k]
+		}
+		if !same {
+			h.report([]c15Fail{{"get:returned-batch-changed-later", fmt.Sprintf("the batch returned by operation %d was %v and changed afterwards", hd.at, hd.cmds)}},
+				map[string]any{"batch_size": bs, "ops": names, "batch_of_op": hd.at})
+		}
 	}
 	key := fmt.Sprintf("%s bs=%d %s", tag, bs, strings.Join(names, ";"))
 	v.Seen(key, batches > 0 && blocked > 0, map[string]any{"batch_size": bs, "ops": names, "results": results})
@@ -617,6 +898,12 @@ func (h *c15H) sequencesExhaustive(length int) {
 	}
 }
 
+// client ids that agree in their low 8 / 16 / 24 / 31 bits, id 0, the largest id
+var c15IDPalette = []uint32{1, 1 + 1<<8, 1 + 1<<16, 1 + 1<<24, 1 + 1<<31, 0, 1 << 16, ^uint32(0), 2, 2 + 1<<16}
+
+// sequence numbers that agree in their low 32 bits / differ only in the top bit
+var c15SeqOffsets = []uint64{0, 0, 1 << 32, 1 << 63, 1<<32 + 1<<31}
+
 func (h *c15H) sequencesRandom(n int) {
 	v := h.v
 	stream := v.Stream("seqr", "seq_mismatches", 150)
@@ -628,42 +915,102 @@ func (h *c15H) sequencesRandom(n int) {
 		nc := 1 + v.rng.Intn(4)
 		length := 8 + v.rng.Intn(40)
 		maxS := uint64(2 + v.rng.Intn(3+length/4))
-		inOrder := v.rng.Intn(3) == 0 // clients that number their commands consecutively
+		inOrder := v.rng.Intn(3) == 0  // clients that number their commands consecutively
+		wideIDs := v.rng.Intn(3) == 0  // ids from the palette instead of 1..nc
+		wideSeqs := v.rng.Intn(4) == 0 // sequence numbers spread over the uint64 range
+		if wideIDs {
+			v.Count("seqr_wide_ids")
+		}
+		if wideSeqs {
+			v.Count("seqr_wide_seqs")
+		}
+		idOff := v.rng.Intn(len(c15IDPalette))
+		client := func() uint32 {
+			k := v.rng.Intn(nc)
+			if wideIDs {
+				return c15IDPalette[(idOff+k)%len(c15IDPalette)]
+			}
+			return uint32(1 + k)
+		}
+		seqno := func() uint64 {
+			s := uint64(v.rng.Int63n(int64(maxS) + 1))
+			if wideSeqs {
+				s += c15SeqOffsets[v.rng.Intn(len(c15SeqOffsets))]
+			}
+			return s
+		}
 		nextSeq := map[uint32]uint64{}
 		tag := uint64(0)
 		var ops []c15Op
 		// a shadow run decides what "the batch Get just returned" is; run on a scratch cache
 		shadow := NewCommandCache(bs)
 		var lastBatch []c15Cmd
-		for i := 0; i < length; i++ {
-			var op c15Op
-			switch r := v.rng.Intn(100); {
-			case r < 58:
-				c := uint32(1 + v.rng.Intn(nc))
-				s := uint64(v.rng.Int63n(int64(maxS) + 1))
-				if inOrder && v.rng.Intn(5) != 0 {
-					nextSeq[c]++
-					s = nextSeq[c]
-				}
-				tag++
-				op = c15Op{Kind: c15Add, Cmds: []c15Cmd{{C: c, S: s, T: tag}}}
-			case r < 70:
-				op = c15Op{Kind: c15Proposed}
-				if lastBatch != nil && v.rng.Intn(2) == 0 {
-					op.Cmds = append(op.Cmds, lastBatch...)
-				} else {
-					for k := v.rng.Intn(4); k > 0; k-- {
-						op.Cmds = append(op.Cmds, c15Cmd{C: uint32(1 + v.rng.Intn(nc)), S: uint64(v.rng.Int63n(int64(maxS) + 1)), T: uint64(v.rng.Intn(3))})
-					}
-				}
-			case r < 96:
-				op = c15Op{Kind: c15Get}
-			default:
-				op = c15Op{Kind: c15GetC}
+		newAdd := func() c15Op {
+			c := client()
+			s := seqno()
+			if inOrder && v.rng.Intn(5) != 0 {
+				nextSeq[c]++
+				s = nextSeq[c]
 			}
-			ops = append(ops, op)
-			if res := c15Exec(shadow, op); res.Kind == c15Batch {
-				lastBatch = res.Batch
+			tag++
+			return c15Op{Kind: c15Add, Cmds: []c15Cmd{{C: c, S: s, T: tag}}}
+		}
+		someCmds := func(max int) []c15Cmd {
+			var l []c15Cmd
+			for k := v.rng.Intn(max + 1); k > 0; k-- {
+				if len(l) > 0 && v.rng.Intn(4) == 0 {
+					l = append(l, l[v.rng.Intn(len(l))]) // the same command again
+				} else {
+					l = append(l, c15Cmd{C: client(), S: seqno(), T: uint64(v.rng.Intn(3))})
+				}
+			}
+			return l
+		}
+		newProposed := func() c15Op {
+			op := c15Op{Kind: c15Proposed}
+			if lastBatch != nil && v.rng.Intn(2) == 0 {
+				op.Cmds = append(op.Cmds, lastBatch...)
+			} else {
+				op.Cmds = someCmds(5)
+			}
+			return op
+		}
+		for len(ops) < length {
+			var batch []c15Op
+			switch r := v.rng.Intn(100); {
+			case r < 48:
+				batch = append(batch, newAdd())
+			case r < 52: // a burst of additions: several batches become available at once
+				for k := 2 + v.rng.Intn(2*int(bs)+2); k > 0; k-- {
+					batch = append(batch, newAdd())
+				}
+			case r < 63:
+				batch = append(batch, newProposed())
+			case r < 80:
+				batch = append(batch, c15Op{Kind: c15Get})
+			case r < 84: // repeated Gets, e.g. after a partial extraction
+				for k := 2 + v.rng.Intn(3); k > 0; k-- {
+					batch = append(batch, c15Op{Kind: c15Get})
+				}
+			case r < 88:
+				batch = append(batch, c15Op{Kind: c15GetC})
+			case r < 91:
+				batch = append(batch, c15Op{Kind: c15Contains, Cmds: someCmds(3)})
+			default: // Gets that are already waiting when something happens
+				x := newAdd()
+				if v.rng.Intn(6) == 0 {
+					x = newProposed()
+				}
+				batch = append(batch, c15Op{Kind: c15Wake, K: 1 + v.rng.Intn(3), Racing: v.rng.Intn(5) < 2, CancelFirst: v.rng.Intn(2) == 0, X: &x})
+			}
+			for _, op := range batch {
+				ops = append(ops, op)
+				res := c15Exec(shadow, op)
+				if res.Kind == c15Batch {
+					lastBatch = res.Batch
+				} else if len(res.Batches) > 0 {
+					lastBatch = res.Batches[len(res.Batches)-1]
+				}
 			}
 		}
 		h.runSeq(stream, bs, ops, true, "seqr")
@@ -677,6 +1024,10 @@ func (h *c15H) edges() {
 	A := func(c uint32, s, t uint64) c15Op { return c15Op{Kind: c15Add, Cmds: []c15Cmd{{c, s, t}}} }
 	P := func(cs ...c15Cmd) c15Op { return c15Op{Kind: c15Proposed, Cmds: cs} }
 	G, GC := c15Op{Kind: c15Get}, c15Op{Kind: c15GetC}
+	C := func(cs ...c15Cmd) c15Op { return c15Op{Kind: c15Contains, Cmds: cs} }
+	W := func(k int, racing, cancelFirst bool, x c15Op) c15Op {
+		return c15Op{Kind: c15Wake, K: k, Racing: racing, CancelFirst: cancelFirst, X: &x}
+	}
 	nilAdd := c15Op{Kind: c15Add, NilCmd: true}
 	nilBatch := c15Op{Kind: c15Proposed, NilBatch: true}
 	nilInBatch := c15Op{Kind: c15Proposed, NilCmd: true, Cmds: []c15Cmd{{}, {1, 1, 0}, {}}}
@@ -691,7 +1042,7 @@ func (h *c15H) edges() {
 		{1, []c15Op{nilAdd, G, nilBatch, A(1, 1, 1), nilInBatch, G, A(1, 2, 2), G}, true},
 		{2, []c15Op{nilAdd, A(1, 1, 1), nilAdd, G, A(1, 2, 2), nilBatch, G}, true},
 		// extreme values
-		{1, []c15Op{A(maxU32, maxU64, 1), G, P(c15Cmd{maxU32, maxU64, 0}), A(maxU32, maxU64, 2), A(maxU32, maxU64 - 1, 3), G}, true},
+		{1, []c15Op{A(maxU32, maxU64, 1), G, P(c15Cmd{maxU32, maxU64, 0}), A(maxU32, maxU64, 2), A(maxU32, maxU64-1, 3), G}, true},
 		{2, []c15Op{A(maxU32, maxU64-1, 1), A(maxU32, maxU64, 2), P(c15Cmd{maxU32, maxU64 - 1, 0}), G, A(maxU32-1, 1, 3), G, G}, true},
 		// batch size far larger than anything added; batch size 2^32-1
 		{1000, []c15Op{A(1, 1, 1), A(1, 2, 2), A(2, 1, 3), G, GC}, true},
@@ -709,8 +1060,23 @@ func (h *c15H) edges() {
 		// stale entries in front of and between fresh ones; exactly the examined prefix goes
 		{2, []c15Op{A(1, 1, 1), A(2, 1, 2), A(1, 2, 3), A(2, 2, 4), A(1, 3, 5), P(c15Cmd{1, 1, 0}, c15Cmd{2, 1, 0}), G, G, A(2, 3, 6), G}, true},
 		{2, []c15Op{A(1, 1, 1), A(2, 5, 2), A(1, 2, 3), A(1, 3, 4), P(c15Cmd{1, 2, 0}), G, P(c15Cmd{2, 5, 0}), G, A(1, 4, 5), G}, true},
-		// already cancelled contexts
+		// already cancelled contexts: whichever branch the select takes, the batch stays available
 		{1, []c15Op{GC, A(1, 1, 1), GC, GC, GC, G}, true},
+		{2, []c15Op{A(1, 1, 1), A(1, 2, 2), GC, GC, G, A(1, 3, 3), A(1, 4, 4), GC, G}, true},
+		{1, []c15Op{A(1, 1, 1), A(1, 2, 2), GC, G, GC, G, GC, G}, true},
+		// Gets that are already waiting: woken by the Add that completes a batch; only one batch for two waiters;
+		// a false alarm (stale commands fill the cache) leaves the waiter waiting; cancellation racing with the Add
+		{2, []c15Op{A(1, 1, 1), W(1, false, false, A(1, 2, 2)), W(2, false, false, A(1, 3, 3)), W(2, false, false, A(1, 4, 4)), G}, true},
+		{1, []c15Op{W(3, false, false, A(1, 1, 1)), W(3, false, false, A(1, 1, 2)), W(1, false, false, P(c15Cmd{1, 1, 0})), W(2, false, false, A(1, 1, 3)), W(2, false, false, A(1, 2, 4))}, true},
+		{2, []c15Op{A(1, 1, 1), A(1, 2, 2), P(c15Cmd{1, 2, 0}), W(1, false, false, A(1, 2, 3)), W(1, false, false, A(1, 3, 4)), W(1, false, false, A(1, 4, 5)), G}, true},
+		{2, []c15Op{A(1, 1, 1), W(1, true, false, A(1, 2, 2)), G, A(2, 1, 3), W(2, true, true, A(2, 2, 4)), G, G}, true},
+		{1, []c15Op{W(1, true, true, A(1, 1, 1)), G, W(1, true, false, A(1, 2, 2)), G, W(3, true, false, A(1, 3, 3)), G}, true},
+		{3, []c15Op{A(1, 1, 1), A(2, 1, 2), W(2, true, false, A(1+1<<16, 1, 3)), G, G}, true},
+		// ids that agree in their low bits are different clients; sequence numbers that agree in their low 32 bits differ
+		{2, []c15Op{A(1, 1, 1), P(c15Cmd{1, 1, 0}), A(1+1<<16, 1, 2), A(1+1<<8, 1, 3), G, A(1+1<<24, 1, 4), A(1+1<<31, 1, 5), G, C(c15Cmd{1 + 1<<16, 1, 0}), C(c15Cmd{1, 1, 0})}, true},
+		{1, []c15Op{A(1, 1<<32+1, 1), P(c15Cmd{1, 1, 0}), G, A(1, 1, 2), G, P(c15Cmd{1, 1<<32 + 1, 0}), A(1, 1<<32, 3), A(1, 1<<63, 4), G, C(c15Cmd{1, 1 << 33, 0})}, true},
+		// containsDuplicate: empty, all fresh, one stale at each position
+		{1, []c15Op{C(), C(c15Cmd{1, 1, 0}), P(c15Cmd{1, 2, 0}), C(c15Cmd{1, 3, 0}, c15Cmd{2, 1, 0}), C(c15Cmd{1, 2, 0}, c15Cmd{2, 1, 0}), C(c15Cmd{2, 1, 0}, c15Cmd{1, 1, 0}), C(c15Cmd{2, 1, 0}, c15Cmd{2, 2, 0}, c15Cmd{1, 2, 0})}, true},
 		// batch size 0 is outside the property (sizes >= 1): run only to see that nothing panics
 		{0, []c15Op{G, A(1, 1, 1), G, G, P(c15Cmd{1, 1, 0}), G, A(1, 2, 2), G}, false},
 	}
@@ -720,6 +1086,10 @@ func (h *c15H) edges() {
 	// random sequences biased to boundary values
 	vals := []uint64{0, 1, 2, maxU64 - 1, maxU64}
 	cls := []uint32{0, 1, maxU32}
+	if v.rng.Intn(2) == 0 {
+		vals = []uint64{1, 1 << 32, 1<<32 + 1, 1 << 63, maxU64}
+		cls = []uint32{1, 1 + 1<<16, 1 + 1<<31}
+	}
 	for it := 0; it < v.Pick(150, 1500); it++ {
 		bs := []uint32{1, 1, 2, 3, maxU32, 0}[v.rng.Intn(6)]
 		var ops []c15Op
@@ -733,8 +1103,12 @@ func (h *c15H) edges() {
 				ops = append(ops, P(c15Cmd{cls[v.rng.Intn(3)], vals[v.rng.Intn(5)], 0}))
 			case r == 8:
 				ops = append(ops, []c15Op{nilBatch, nilInBatch}[v.rng.Intn(2)])
-			case r < 11:
+			case r < 10:
 				ops = append(ops, G)
+			case r == 10:
+				if bs != 0 {
+					ops = append(ops, W(1+v.rng.Intn(2), v.rng.Intn(2) == 0, v.rng.Intn(2) == 0, A(cls[v.rng.Intn(3)], vals[v.rng.Intn(5)], uint64(i+1))))
+				}
 			default:
 				ops = append(ops, GC)
 			}
@@ -748,9 +1122,9 @@ func TestVerifC15(t *testing.T) {
 	h := &c15H{v: v}
 	synctest.Test(t, func(t *testing.T) {
 		h.edges()
-		h.exhaustive(v.Pick(6, 7), v.Pick(3, 4), v.Pick(120, 400))
+		h.exhaustive(v.Pick(6, 7), v.Pick(3, 4), v.Pick(220, 600), v.Pick(4, 5))
 		h.sequencesExhaustive(v.Pick(3, 4))
 		h.sequencesRandom(v.Pick(1200, 12000))
 	})
-	v.Close("real CommandCache in a synctest bubble (blocked Get = durably blocked goroutine); step: every transition out of every distinct state reachable by <= D ops over Add/Proposed of 2 clients x seq 1..3 and Get, batch sizes 1..3 (D=6 quick, 7 thorough), oracle on all, kernel on all of depth <= 3/4 plus a hash sample; seqx/seqr/edge: whole sequences on one object; non-trivial = non-empty cache with marks or a Get / a run with both a returned batch and a blocked Get")
+	v.Close("real CommandCache in a synctest bubble (blocked Get = durably blocked goroutine); step: every transition out of every distinct state reachable by <= D ops over Add/Proposed of 2 clients x seq 1..3 and Get, batch sizes 1..3 (D=6 quick, 7 thorough), oracle on all, kernel on all of depth <= 3/4 plus a hash sample; out of every such state also: Get with an already-cancelled context while the token is present (3 tries, either select branch), 1-2 Gets ALREADY WAITING when an Add arrives, live or with cancel() racing before/after the Add; seqx/seqr/edge: whole sequences on one object (seqr: client ids agreeing in their low 8/16/24/31 bits, sequence numbers agreeing in their low 32 bits, bursts, repeated Gets, waiting Gets, containsDuplicate; every returned batch gets a junk command appended and is re-read at the end of the sequence); non-trivial = non-empty cache with marks or a Get / a run with both a returned batch and a blocked Get")
 }
